@@ -98,7 +98,11 @@ def explore_batch(job):
                                      'first': dict(mine[0])})
         if len(agg['samples']) < 2 and res.events and not mine:
             agg['samples'].append({'idx': idx, 'trace': [_short(e) for e in res.events[:12]]})
-    agg['states'] = sorted(agg['states'])
+    # compact: 48-bit integers instead of strings (the driver only counts distinct ones)
+    agg['states'] = sorted({H(x) & 0xFFFFFFFFFFFF for x in agg['states']})
+    agg['batch_digest'] = digest(agg['digests'])
+    if not job.get('want_digests'):
+        agg['digests'] = []
     return agg
 
 
